@@ -10,7 +10,7 @@ import (
 
 func init() {
 	register("C13", propMeta{
-		Explanation: "E-PANIC + E-GUARD. O-1/O-2: over every repository function reachable from the untrusted session-description entry points (util.DeserializeSessionDescription, util.SerializeSessionDescription, util.StripLocalAddresses, proxy/lib.remoteIPFromSDP) no explicit panic, log.Fatal/os.Exit, or single-value type assertion that is not discharged (dominating comma-ok of the same value, container callback tables) exists, and every constant index into a regexp submatch result is within the pattern's capture groups and behind a != nil test. O-3: in every caller, the *SessionDescription returned by a (pointer, error) call is dereferenced only through the err == nil edge of that call. These are necessary conditions of 'never panic': each violating construct is a concrete crash path for some input. Added after the second seeding round: O-5 in every client/proxy function returning (pointer, error) that feeds a description parameter to a fallible call, no return reachable from that call's failure edge yields (nil, possibly-nil error); O-6 no function of common/util keeps package-level mutable state (a shared buffer/encoder for serialising descriptions). Added after the third seeding round: O-2b a constant index is used only behind a length test of the same slice; O-3c a pointer that can be nil on an edge where the accompanying error is nil (shadowed err, error of an earlier call) is not dereferenced or passed on; O-5 DeserializeSessionDescription has no (nil, nil) return. Added after the fourth seeding round: O-2b covers constant indexes into strings (msg[0] on a blank message); O-3d no method is invoked on an error value that may be nil (if err != nil || other { ... err.Error() }). Added after the fifth seeding round: O-3e no method is invoked on reflect.TypeOf(x) without a nil test, and a function literal that dereferences the pointer result of a (pointer, error) call is created only behind that call's err == nil edge (probe server included).",
+		Explanation: "E-PANIC + E-GUARD. O-1/O-2: over every repository function reachable from the untrusted session-description entry points (util.DeserializeSessionDescription, util.SerializeSessionDescription, util.StripLocalAddresses, proxy/lib.remoteIPFromSDP) no explicit panic, log.Fatal/os.Exit, or single-value type assertion that is not discharged (dominating comma-ok of the same value, container callback tables) exists, and every constant index into a regexp submatch result is within the pattern's capture groups and behind a != nil test. O-3: in every caller, the *SessionDescription returned by a (pointer, error) call is dereferenced only through the err == nil edge of that call. These are necessary conditions of 'never panic': each violating construct is a concrete crash path for some input. Added after the second seeding round: O-5 in every client/proxy function returning (pointer, error) that feeds a description parameter to a fallible call, no return reachable from that call's failure edge yields (nil, possibly-nil error); O-6 no function of common/util keeps package-level mutable state (a shared buffer/encoder for serialising descriptions). Added after the third seeding round: O-2b a constant index is used only behind a length test of the same slice; O-3c a pointer that can be nil on an edge where the accompanying error is nil (shadowed err, error of an earlier call) is not dereferenced or passed on; O-5 DeserializeSessionDescription has no (nil, nil) return. Added after the fourth seeding round: O-2b covers constant indexes into strings (msg[0] on a blank message); O-3d no method is invoked on an error value that may be nil (if err != nil || other { ... err.Error() }). Added after the fifth seeding round: O-3e no method is invoked on reflect.TypeOf(x) without a nil test, and a function literal that dereferences the pointer result of a (pointer, error) call is created only behind that call's err == nil edge (probe server included). Added after the sixth seeding round and the mutation audit: O-3f a method is invoked on an interface value that a repository function may return as nil (RemoteAddr without a public candidate) only behind a nil test - parameters are followed to their callers through the VTA call graph, method-value wrappers and go statements included; O-7 the SDP of the deserialised description is the decoded member itself; O-7/C15 the event-error obligation of C15.",
 		NotDecided:  "panics inside third-party parsers (pion/sdp, pion/ice, encoding/json) - trusted base; the serialise/deserialise round-trip equality (value-level); variable-index slice accesses.",
 		Assumptions: []string{"third-party and standard-library callees do not panic on any input", "pion: RemoteDescription()/LocalDescription() are non-nil after a successful Set*Description"},
 	}, runC13)
@@ -18,6 +18,11 @@ func init() {
 
 func runC13(c *Ctx) {
 	p := c.P
+	// an answer that pion refuses is reported through an event whose String() calls Error() on its error field:
+	// the field must hold the error of that refusal (C15's obligation)
+	c.prefix = "O-7/C15:"
+	c.checkEventErrors("O-6d events carry the error their String() dereferences")
+	c.prefix = ""
 	var entries []*ssa.Function
 	for _, a := range [][2]string{
 		{"common/util", "DeserializeSessionDescription"},
@@ -54,6 +59,8 @@ func runC13(c *Ctx) {
 	c.checkRejectionHasError("O-5 a rejected description is reported as an error")
 	c.checkNilPhiDerefs("O-3c a pointer that is nil on some path is not dereferenced there", p.FnsIn("client/lib", "proxy/lib", "common/util"))
 	c.checkNilErrorInvokes("O-3d no method is invoked on an error that may be nil", p.FnsIn("client/lib", "proxy/lib", "common/util"))
+	// the address taken from a description may be absent (no public candidate): RemoteAddr() then returns nil
+	c.checkNilInterfaceResults("O-3f no method is invoked on an interface result that may be nil", p.FnsIn("client/lib", "proxy/lib", "common/util"))
 	c.checkNilTypeAndEarlyClosures("O-3e nil types and pointers captured before the error test", p.FnsIn("client/lib", "proxy/lib", "common/util", "probetest"))
 	c.checkNoSharedState("O-6 the description codec keeps no shared mutable state", "common/util", p.FnsIn("common/util"))
 	c.checkResultUse("O-3 description used only after its error check", scope, func(call *ssa.Call) bool {
@@ -205,6 +212,62 @@ func (c *Ctx) checkRejectionHasError(rule string) {
 	nFn, nCalls := 0, 0
 	// the deserialiser itself: every return yields a description or a non-nil error (callers test the
 	// error and then dereference the description)
+	// the description that comes out carries the text that went in: the SDP of the result is the decoded "sdp"
+	// member itself (no call between the two)
+	if des := p.Fn("common/util", "DeserializeSessionDescription"); des != nil {
+		ruleRT := "O-7 the deserialised description carries the received text"
+		n := 0
+		for _, r := range returnsOf(des) {
+			if len(r.Results) < 1 {
+				continue
+			}
+			al, ok := strip(retVal(r, 0)).(*ssa.Alloc)
+			if !ok {
+				continue
+			}
+			sdp := structLitField(al, "SDP")
+			if sdp == nil {
+				continue
+			}
+			n++
+			// walk back through assertions and extracts; a call on the way is a transformation
+			v := sdp
+			var viaCall *ssa.Call
+			fromLookup := false
+			for i := 0; i < 10 && v != nil; i++ {
+				switch x := v.(type) {
+				case *ssa.Extract:
+					v = x.Tuple
+				case *ssa.TypeAssert:
+					v = x.X
+				case *ssa.Lookup:
+					if k, okk := constString(x.Index); okk && k == "sdp" {
+						fromLookup = true
+					}
+					v = nil
+				case *ssa.Call:
+					viaCall = x
+					v = nil
+				case *ssa.Phi:
+					v = nil
+				case *ssa.FieldAddr, *ssa.UnOp, *ssa.Field:
+					// a struct decoded by encoding/json: the field is what was received
+					fromLookup = true
+					v = nil
+				default:
+					v = nil
+				}
+			}
+			if viaCall != nil {
+				c.viol(ruleRT, "DeserializeSessionDescription stores the decoded sdp member unchanged", p.instrPos(viaCall), "the SDP of the result is the result of "+calleeName(viaCall)+", not the decoded member itself: a description whose text this call changes (line terminators, white space, case) does not come back as it was serialised")
+			} else {
+				c.check(fromLookup, ruleRT, "DeserializeSessionDescription stores the decoded sdp member unchanged", p.instrPos(r), "", "the origin of the SDP text of the result is not the decoded \"sdp\" member")
+			}
+		}
+		if n == 0 {
+			c.undecided(ruleRT, "DeserializeSessionDescription stores the decoded sdp member unchanged", p.Pos(des.Pos()), "no returned description literal found")
+		}
+	}
 	if des := p.Fn("common/util", "DeserializeSessionDescription"); des != nil {
 		okAll := true
 		var where *ssa.Return
